@@ -38,6 +38,7 @@ type Obligation struct {
 	Cover   bool // vacuity query: expected SAT
 	NoQuant bool // model-search variant: quantified assertions dropped
 	Model   string
+	Blk     *ssa.BasicBlock
 	Trivial bool
 }
 
@@ -74,12 +75,17 @@ type Session struct {
 	freshRefs map[string]bool
 	wfDone   map[string]bool
 	closureDone map[string]bool
+	factBlk  []*ssa.BasicBlock // top-level block that produced each fact (nil: global)
+	curBlk   *ssa.BasicBlock
+	anc      map[*ssa.BasicBlock]map[*ssa.BasicBlock]bool
+	subst    [][2]string // textual substitutions applied to every query (case splits)
 	newObjs  []newObj
 	recvRef  string
 	allocHook func(f *Frame, cond, count string, elem types.Type, pos string)
 }
 
 type newObj struct {
+	blk     *ssa.BasicBlock
 	ref     string
 	ptrType types.Type
 	desc    string
@@ -137,6 +143,34 @@ func (s *Session) fact(f string) {
 		return
 	}
 	s.facts = append(s.facts, "(assert "+f+")")
+	s.factBlk = append(s.factBlk, s.curBlk)
+}
+
+// ancestors of b in the top-level CFG (forward edges only), including b
+func (s *Session) ancestors(b *ssa.BasicBlock) map[*ssa.BasicBlock]bool {
+	if s.anc == nil {
+		s.anc = map[*ssa.BasicBlock]map[*ssa.BasicBlock]bool{}
+	}
+	if a, ok := s.anc[b]; ok {
+		return a
+	}
+	a := map[*ssa.BasicBlock]bool{b: true}
+	stack := []*ssa.BasicBlock{b}
+	for len(stack) > 0 {
+		x := stack[len(stack)-1]
+		stack = stack[:len(stack)-1]
+		for _, p := range x.Preds {
+			if x.Dominates(p) {
+				continue // back edge
+			}
+			if !a[p] {
+				a[p] = true
+				stack = append(stack, p)
+			}
+		}
+	}
+	s.anc[b] = a
+	return a
 }
 
 func (s *Session) note(f string, a ...interface{}) {
@@ -240,6 +274,7 @@ func (s *Session) addObl(o *Obligation) {
 		o.Name = fmt.Sprintf("%s~%d", base, n)
 	}
 	o.NFacts = len(s.facts)
+	o.Blk = s.curBlk
 	o.Fn = s.C.Key()
 	if o.Props == nil {
 		o.Props = s.C.Props
@@ -264,6 +299,17 @@ func symbolsOf(t string) []string { return identRe.FindAllString(t, -1) }
 // relevantFacts keeps the facts connected to the goal through shared declared constants (dropping facts only weakens the hypotheses).
 func (s *Session) relevantFacts(o *Obligation) []string {
 	facts := s.facts[:o.NFacts]
+	if o.Blk != nil {
+		// path pruning: facts produced in blocks that cannot reach the obligation's block say nothing about its paths
+		anc := s.ancestors(o.Blk)
+		var kept []string
+		for i, f := range facts {
+			if b := s.factBlk[i]; b == nil || anc[b] {
+				kept = append(kept, f)
+			}
+		}
+		facts = kept
+	}
 	if o.Cover {
 		return facts
 	}
@@ -322,6 +368,14 @@ func (s *Session) relevantFacts(o *Obligation) []string {
 
 // query renders the SMT-LIB text of one obligation.
 func (s *Session) query(o *Obligation, specDefs string) string {
+	q := s.queryRaw(o, specDefs)
+	for _, sb := range s.subst {
+		q = strings.ReplaceAll(q, sb[0], sb[1])
+	}
+	return q
+}
+
+func (s *Session) queryRaw(o *Obligation, specDefs string) string {
 	var sb strings.Builder
 	sb.WriteString("; obligation " + o.Name + "\n")
 	if o.Pos != "" {
@@ -364,6 +418,7 @@ func (s *Session) query(o *Obligation, specDefs string) string {
 		sb.WriteString("(assert " + not(o.Goal) + ")\n")
 	}
 	sb.WriteString("(check-sat)\n")
+	defer func() {}()
 	if len(o.Watch) > 0 && !o.Cover {
 		var ts []string
 		for _, w := range o.Watch {
